@@ -233,7 +233,7 @@ pub fn run(args: &Args) {
         }
     }
 
-    let n = args.tier.pick(160, 12_000);
+    let n = args.tier.pick(400, 12_000);
     let res = vcore::run_prop_parallel(&report, "projects", n, vcore::num_workers(), cases::case_strategy, |spec| {
         let (r, label, faults) = materialise(spec, &ex);
         let res = check_files(&r);
